@@ -174,6 +174,39 @@ theorem op6_padding (r : Row) (xs : List String) (h : ∀ x ∈ xs, r.get x = no
     Spec.padNulls r xs = xs.foldl (fun r a => r.set a .null) r :=
   padNulls_eq_foldl r xs h
 
+/-- **op 6'' (OPTIONAL MATCH never removes outer rows)** — for ANY outer plan and ANY filtered-side plan (in particular
+    `Filter p` over the expanded pattern, for every predicate `p`: over outer variables, optional ones, both or
+    none), and however often outer rows repeat: projected on the outer columns, the output of OptionalWhereFixup is
+    the outer table with every row repeated once per row of the filtered side that carries its bindings — and ONCE
+    when there is none.  So no outer row is dropped (`∀ r ∈ outer, r ∈ …`), the output is never shorter than the
+    outer table (`count(*)` counts padded rows), and a row without match appears exactly once. -/
+theorem op6_optional_preserves_outer (A : Algebra) (env : Env) (o f : Plan) (ns cols : List String)
+    (outer filtered : Table) (ho : Exec.exec A env o = .ok outer) (hf : Exec.exec A env f = .ok filtered)
+    (hcols : ∀ r ∈ outer, r.cols = cols) (hnd : cols.Nodup) (hdisj : ∀ a ∈ ns, a ∉ cols) :
+    ∃ out, Exec.exec A env (.optionalWhereFixup o f ns) = .ok out ∧
+      out.map (restrictCols cols) = (outer.flatMap fun r =>
+        List.replicate (max 1 (filtered.filter fun x => Exec.containsAllBindings x r).length) r) ∧
+      (∀ r ∈ outer, r ∈ out.map (restrictCols cols)) ∧ outer.length ≤ out.length :=
+  optionalWhereFixup_preserves_outer A env o f ns cols outer filtered ho hf hcols hnd hdisj
+
+/-- the outer side the planner builds is the incoming plan itself — in the model (`OPTIONAL MATCH … WHERE w`: outer =
+    the plan before the clause, filtered = `Filter w` over the expanded pattern) … -/
+theorem op6_outer_side_model (pats : List PathPat) (w : Expr) (rest : Query) (l : Compile.Loop) :
+    Compile.compileClauses (.match_ true pats :: .where_ w :: rest) l =
+      (do
+        let (plan, st) ← Compile.compileMatch l.plan pats (Compile.extractPredicates w []) l.st
+        let aliases := Compile.optionalAliases pats
+          (match l.plan with | some p => Compile.outKinds p | none => []) (Compile.outKinds plan)
+        Compile.exprVarsOk (Compile.outKinds plan ++ aliases.map (·, Kind.unknown)) w
+        Compile.compileClauses rest
+          { plan := some (.optionalWhereFixup (l.plan.getD .returnOne) (.filter plan w) aliases), st := st }) :=
+  compile_optional_where_outer pats w rest l
+
+/-- … and in the source: table regenerated from compile_core.rs (both construction sites put `previous_plan`,
+    unmodified, on the outer side; the recogniser fails on any other shape) -/
+theorem op6_outer_side_tie : Generated.optionalOuterSideIsIncomingPlan = true ∧ Generated.optionalFixupSites = 2 := by
+  decide
+
 /-- op 8a (implicit grouping): the executor's groups are the reference's, and those are: one group per distinct
     key, holding exactly the input rows with that key in input order, none empty, every row in one -/
 theorem op8_groups (gb : List String) (T : Table) :
@@ -277,6 +310,19 @@ example : okRows (Exec.run small { g := g1 } q3) = some [[("z", .int 1)]] := by 
 /-- a core query on which both sides fail alike (negative LIMIT) -/
 example : okRows (Exec.run small { g := g1 }
     [.return_ ⟨false, [⟨.plain (.lit (.int 1)), "a"⟩], [], none, some (.int (-1))⟩]) = none := by decide
+
+/-- `MATCH (a:A) OPTIONAL MATCH (a)-[:T]->(b) WHERE a.k > 1 RETURN a.k AS k, b`: the outer-only predicate is false on
+    node 0 (k = 1) and true on node 1 (k = 2); node 0 stays, padded -/
+def q4 : Query :=
+  [.match_ false [⟨⟨some "a", ["A"], []⟩, []⟩],
+   .match_ true [⟨⟨some "a", [], []⟩, [(⟨none, ["T"], .out, []⟩, ⟨some "b", [], []⟩)]⟩],
+   .where_ (.cmp .gt (.prop "a" "k") (.lit (.int 1))),
+   .return_ ⟨false, [⟨.plain (.prop "a" "k"), "k"⟩, ⟨.plain (.var "b"), "b"⟩], [], none, none⟩]
+
+example : Spec.WellScoped q4 ∧ InF1 q4 = true ∧ NoKnownTrigger small { g := g1 } q4 = true := by decide
+example : okRows (Exec.run small { g := g1 } q4) =
+    some [[("k", .int 1), ("b", .null)], [("k", .int 2), ("b", .node 2)]] := by decide
+example : Agrees (Exec.run small { g := g1 } q4) (Spec.denote small { g := g1 } q4) := by decide
 
 /-! ### counterexamples: `C11_full` is false of the model (and of the engine: corpus/query/*.ops) -/
 
